@@ -498,7 +498,7 @@ struct Rw<'a> {
     /// for-loops: (ordinal among all loops, start of the iterable expression)
     for_iters: Vec<(usize, usize)>,
     /// T17: `if` statements (by ordinal) whose then-block is replaced by a call to an assumed stub
-    outline: HashMap<usize, String>,
+    outline: HashMap<usize, (String, usize)>,
     if_count: usize,
     /// (ordinal, end offset) of every `if` expression
     if_ends: Vec<(usize, usize)>,
@@ -793,11 +793,22 @@ impl<'a, 'ast> Visit<'ast> for Rw<'a> {
                 let k = self.if_count;
                 self.if_count += 1;
                 self.if_ends.push((k, self.r(e.span()).1));
-                if let Some(call) = self.outline.get(&k).cloned() {
-                    // T17: the block is replaced by its assumed contract (a stub call)
+                if let Some((call, keep)) = self.outline.get(&k).cloned() {
+                    // T17: the block is replaced by its assumed contract (a stub call); with `keep N` the last N statements
+                    // of the block stay as they are (and are verified), only the statements before them are outlined
                     self.fire("T17.outline_block");
-                    let r = self.r(i.then_branch.span());
-                    self.ed.replace(r, &format!("{{ {call}; }}"), "T17.outline_block");
+                    let stmts = &i.then_branch.stmts;
+                    if keep > 0 && stmts.len() > keep {
+                        let open = self.r(i.then_branch.brace_token.span.open());
+                        let first_kept = self.r(stmts[stmts.len() - keep].span());
+                        self.ed.replace((open.1, first_kept.0), &format!(" {call}; "), "T17.outline_block");
+                        for st in &stmts[stmts.len() - keep..] {
+                            self.visit_stmt(st);
+                        }
+                    } else {
+                        let r = self.r(i.then_branch.span());
+                        self.ed.replace(r, &format!("{{ {call}; }}"), "T17.outline_block");
+                    }
                     self.visit_expr(&i.cond);
                     if let Some((_, e)) = &i.else_branch {
                         self.visit_expr(e);
@@ -1302,8 +1313,11 @@ fn emit_fn(src: &Src, facts: &Facts, spec: &FnSpec, vspec_name: &str, out: &mut 
             }
         }
         if let Some(k) = pos.strip_prefix("outline-if ") {
-            if let Ok(k) = k.trim().parse::<usize>() {
-                rw.outline.insert(k, b.text.trim().trim_end_matches(';').to_string());
+            let mut it = k.split_whitespace();
+            let n = it.next().and_then(|x| x.parse::<usize>().ok());
+            let keep = if it.next() == Some("keep") { it.next().and_then(|x| x.parse::<usize>().ok()).unwrap_or(0) } else { 0 };
+            if let Some(n) = n {
+                rw.outline.insert(n, (b.text.trim().trim_end_matches(';').to_string(), keep));
             }
         }
     }
@@ -1511,7 +1525,7 @@ fn emit_fn(src: &Src, facts: &Facts, spec: &FnSpec, vspec_name: &str, out: &mut 
                 Some(("after-call", _)) => true,
                 Some(("ready-pending", n)) => n.parse::<usize>().map(|n| n < rw.ready_count).unwrap_or(false),
                 Some(("after-if", n)) => n.parse::<usize>().map(|n| n < rw.if_count).unwrap_or(false),
-                Some(("outline-if", n)) => n.parse::<usize>().map(|n| n < rw.if_count).unwrap_or(false),
+                Some(("outline-if", n)) => n.split_whitespace().next().and_then(|x| x.parse::<usize>().ok()).map(|n| n < rw.if_count).unwrap_or(false),
                 Some(("closure", n)) => n.parse::<usize>().map(|n| n < closures.len()).unwrap_or(false),
                 _ => false,
             };
